@@ -24,6 +24,16 @@ def _check(args):
     core.setup_env()
     core.clean_stale_scratch()
     t0 = time.time()
+    # preflight in a fresh interpreter: a tree that is missing or does not import must fail fast (worker processes that die
+    # while importing it would be respawned for ever)
+    import subprocess
+
+    pre = subprocess.run([core.PY, "-c", "import codemodder.codemodder, core_codemods, codemodder.registry as r; r.load_registered_codemods()"],
+                         env=dict(os.environ, PYTHONPATH=str(core.REPO / "src")), capture_output=True, text=True)
+    if pre.returncode != 0 or not (core.REPO / "src" / "codemodder").is_dir():
+        print(f"HARNESS-ERROR property={prop}: the tree under {core.REPO} cannot be imported: {pre.stderr[-400:]}", file=sys.stderr)
+        print(f"{prop} tier={tier} seed={seed} exit={core.EXIT_HARNESS} wall={time.time() - t0:.1f}s")
+        return core.EXIT_HARNESS
     try:
         mod = importlib.import_module(f"cmverif.checks.{prop.lower()}")
         from . import drive
